@@ -102,7 +102,7 @@ def add_links(rng, top):
         if page["title"] is None or not targets:
             continue
         for _ in range(rng.randint(0, 3)):
-            kind = rng.choice(["page_alias", "relative", "media", "url"])
+            kind = rng.choice(["page_alias", "relative", "media", "url", "html_block"])
             tgt = rng.choice(popular) if rng.random() < 0.7 else rng.choice(targets)
             page["links"].append([kind, tgt])
 
@@ -132,6 +132,9 @@ def page_text(rel, page):
             L.append("[to %s](|page|/%s)" % (tgt, tgt))
         elif kind == "relative":
             L.append("[rel %s](%s%s)" % (tgt, "../" * depth, tgt))
+        elif kind == "html_block":
+            # an alias inside a block-level raw HTML element
+            L.append('<div class="note"><a href="|page|/%s">to %s</a></div>' % (tgt, tgt))
         elif kind == "media":
             L.append("![pic](|media|/pic.png)")
         else:
